@@ -96,6 +96,10 @@ pub enum Op {
     Fill(u32, u32, u32),
     /// the same get `n` times (seek-triggered compaction)
     GetN(Vec<u8>, u32),
+    /// create an iterator (pins the current version and memtables), keep it open
+    IterOpen(u32),
+    /// scan the kept iterator completely, compare with the state at its creation, drop it
+    IterClose(u32),
 }
 
 fn val_tok(v: &[u8]) -> String {
@@ -147,6 +151,8 @@ impl Op {
             Op::Idle => "I".to_string(),
             Op::Fill(s, n, l) => format!("F:{s}:{n}:{l}"),
             Op::GetN(k, n) => format!("M:{}:{n}", hex(k)),
+            Op::IterOpen(i) => format!("O:{i}"),
+            Op::IterClose(i) => format!("Q:{i}"),
         }
     }
     pub fn from_tok(s: &str) -> Option<Op> {
@@ -181,6 +187,8 @@ impl Op {
             "I" => Op::Idle,
             "F" => Op::Fill(p.get(1)?.parse().ok()?, p.get(2)?.parse().ok()?, p.get(3)?.parse().ok()?),
             "M" => Op::GetN(unhex(p.get(1)?)?, p.get(2)?.parse().ok()?),
+            "O" => Op::IterOpen(p.get(1)?.parse().ok()?),
+            "Q" => Op::IterClose(p.get(1)?.parse().ok()?),
             _ => return None,
         })
     }
@@ -240,6 +248,7 @@ pub struct Stats {
     pub snapshots_alive_at_compaction: u64,
     pub idle_checks: u64,
     pub entries_dropped: u64,
+    pub lingering: u64,
 }
 
 pub struct RunOut {
@@ -470,6 +479,37 @@ pub fn check_files(fs: &SimFs, st: &StateDump, no_readers: bool, obs: &mut Vec<O
     }
 }
 
+/// Obsolete tables found at a quiescent moment although no old version is linked any more:
+/// the database only deletes files at the end of a flush/compaction, so a table whose last
+/// reference was a reader's (iterator / get in flight during the compaction that replaced it)
+/// stays until the *next* deletion pass. Force one (an empty memtable flush) and look again:
+/// what is gone then is reported under its own signature, what is still there is a leak.
+fn classify_lingering(d: &DB, fs: &SimFs, st: &StateDump, no_readers: bool, fobs: &mut Vec<Obs>, stats: &mut Stats, at: usize) {
+    let kept = |o: &Obs| o.sig == "c11:obsolete-table-kept" || o.sig == "c11:obsolete-wal-kept" || o.sig == "c11:obsolete-manifest-kept";
+    if !no_readers || st.versions.len() != 1 || !fobs.iter().any(|o| kept(o)) {
+        return;
+    }
+    d.compact_range(Some(&b""[..])..Some(&b""[..]));
+    if !d.verif_wait_idle(Duration::from_secs(20)) {
+        return;
+    }
+    let _ = raindb::verif::events_take(DB_PATH);
+    let st2 = d.verif_state();
+    let mut again = vec![];
+    check_files(fs, &st2, true, &mut again, at);
+    let still: std::collections::BTreeSet<String> = again.iter().filter(|o| kept(o)).map(|o| o.what.split(" is on disk").next().unwrap_or("").to_string()).collect();
+    for o in fobs.iter_mut() {
+        if kept(o) {
+            let name = o.what.split(" is on disk").next().unwrap_or("").to_string();
+            if !still.contains(&name) {
+                o.sig = "c11:obsolete-file-lingers-until-next-deletion-pass".into();
+                o.what = format!("{} — it was deleted only by the next flush (a reader pinned the replaced version while the compaction that obsoleted the file finished, and releasing the reader does not trigger deletion)", o.what);
+                stats.lingering += 1;
+            }
+        }
+    }
+}
+
 /// Run a history against the real database on a fresh SimFs. Never panics: panics of the
 /// implementation are caught and reported.
 pub fn run_history(h: &History, checks: &Checks, fs: &SimFs) -> RunOut {
@@ -477,6 +517,7 @@ pub fn run_history(h: &History, checks: &Checks, fs: &SimFs) -> RunOut {
     let mut stats = Stats::default();
     let mut oracle: Oracle = BTreeMap::new();
     let mut snaps: BTreeMap<u32, (Snapshot, Oracle)> = BTreeMap::new();
+    let mut iters: BTreeMap<u32, (Box<dyn RainDbIterator<Key = Vec<u8>, Error = raindb::RainDBError>>, Oracle)> = BTreeMap::new();
     let mut cfg = h.cfg.clone();
     let mut completed = 0usize;
     let _ = raindb::verif::events_take(DB_PATH);
@@ -635,6 +676,39 @@ pub fn run_history(h: &History, checks: &Checks, fs: &SimFs) -> RunOut {
                     }
                 }
             }
+            Op::IterOpen(id) => {
+                if !iters.contains_key(id) {
+                    match d.new_iterator(ReadOptions::default()) {
+                        Ok(it) => {
+                            iters.insert(*id, (Box::new(it), oracle.clone()));
+                        }
+                        Err(e) => obs.push(Obs { sig: "c03:iterator-error".into(), what: format!("new_iterator failed: {e}"), at: i }),
+                    }
+                }
+            }
+            Op::IterClose(id) => {
+                if let Some((mut it, frozen)) = iters.remove(id) {
+                    stats.scans += 1;
+                    let mut got = vec![];
+                    match it.seek_to_first() {
+                        Err(e) => obs.push(Obs { sig: "c03:iterator-error".into(), what: format!("seek_to_first on a kept iterator failed: {e}"), at: i }),
+                        Ok(()) => {
+                            while it.is_valid() {
+                                let (k, v) = it.current().unwrap();
+                                got.push((k.clone(), v.clone()));
+                                it.next();
+                                if got.len() > 2_000_000 {
+                                    break;
+                                }
+                            }
+                            if let Some(diff) = describe_diff(&got, &frozen) {
+                                obs.push(Obs { sig: "c03:iterator-sees-later-state".into(), what: format!("iterator {id} kept across later operations: {diff}"), at: i });
+                            }
+                        }
+                    }
+                    drop(it);
+                }
+            }
             Op::Snap(id) => {
                 if !snaps.contains_key(id) {
                     let s = d.get_snapshot();
@@ -667,7 +741,10 @@ pub fn run_history(h: &History, checks: &Checks, fs: &SimFs) -> RunOut {
                         check_shape(d, &st, &mut obs, i);
                     }
                     if checks.files {
-                        check_files(fs, &st, snaps.is_empty(), &mut obs, i);
+                        let mut fobs = vec![];
+                        check_files(fs, &st, snaps.is_empty() && iters.is_empty(), &mut fobs, i);
+                        classify_lingering(d, fs, &st, snaps.is_empty() && iters.is_empty(), &mut fobs, &mut stats, i);
+                        obs.extend(fobs);
                     }
                     if checks.dumps {
                         let after = full_dump(d, &oracle, &snaps);
@@ -680,7 +757,8 @@ pub fn run_history(h: &History, checks: &Checks, fs: &SimFs) -> RunOut {
                 }
             }
             Op::Reopen(newcfg) => {
-                // snapshots do not survive a close
+                // iterators and snapshots do not survive a close
+                iters.clear();
                 for (_, (s, _)) in std::mem::take(&mut snaps) {
                     d.release_snapshot(s);
                 }
@@ -749,6 +827,7 @@ pub fn run_history(h: &History, checks: &Checks, fs: &SimFs) -> RunOut {
             d.release_snapshot(s);
         }
     }
+    iters.clear();
     if let Some(old) = db.take() {
         let dropped = std::panic::catch_unwind(std::panic::AssertUnwindSafe(move || drop(old)));
         if dropped.is_err() {
